@@ -99,6 +99,13 @@ pub struct RunRecord {
     pub timers_started: u64,
     /// Some(reason): the scenario could not be judged (baseline too long / engine panic in baseline)
     pub discard: Option<String>,
+    /// after the run, start_query() did not clear the stop flag
+    #[serde(default)]
+    pub flag_stuck_after_start_query: bool,
+    /// the stop flag was already set, and start_query() did not clear it, before this run began:
+    /// an earlier run in this process has poisoned it (the run is not judged)
+    #[serde(default)]
+    pub poisoned_at_start: bool,
 }
 
 pub enum RunOutcome {
@@ -178,6 +185,7 @@ struct Sim {
     faults: BTreeMap<String, u64>,
     thunks_in_op: Vec<u64>,
     stack_base: usize,
+    run_started: Option<std::time::Instant>,
     trace_on: bool,
     live: bool,
     trace: Vec<TraceEvent>,
@@ -207,6 +215,7 @@ impl Sim {
             faults: BTreeMap::new(),
             thunks_in_op: vec![],
             stack_base: 0,
+            run_started: None,
             trace_on: false,
             live: std::env::var("QSIM_LIVE_TRACE").is_ok(),
             trace: vec![],
@@ -300,6 +309,13 @@ fn probe(site: u32, arg: u64) {
     if site == vp::QUERY_STOPPED && mode != Mode::Off && base != 0 && usize::from(shuttle::current::me()) == 0 {
         let here = &mode as *const Mode as usize;
         if base.abs_diff(here) > DEPTH_LIMIT {
+            std::panic::panic_any(AbortDepth);
+        }
+        // Backstop in wall time, far above anything the unchanged tree needs (its slowest run takes
+        // a few seconds): a change that makes the engine call this probe much more rarely would
+        // otherwise let one run go on for minutes. Such a run ends as inconclusive.
+        let too_long = SIM.with(|s| s.borrow().run_started.map(|t| t.elapsed().as_secs() >= 40).unwrap_or(false));
+        if too_long {
             std::panic::panic_any(AbortDepth);
         }
     }
@@ -611,9 +627,17 @@ fn run_body(scn: &Scenario, opts: ExecOpts) -> RunRecord {
         s.step_budget = opts.step_budget;
         s.trace_on = opts.trace;
         s.stack_base = &rec as *const RunRecord as usize;
+        s.run_started = Some(std::time::Instant::now());
     });
     vp::set_probe(Some(probe));
     let _ = take_output();
+    start_query();
+    if vp::peek_flag() {
+        rec.poisoned_at_start = true;
+        rec.discard = Some("process poisoned: the stop flag is set and start_query() does not clear it".to_string());
+        vp::set_probe(None);
+        return rec;
+    }
 
     let kb = build_kb(&scn.clauses);
 
@@ -774,6 +798,10 @@ fn run_body(scn: &Scenario, opts: ExecOpts) -> RunRecord {
     }
     vp::set_probe(None);
     start_query();
+    // start_query() is the documented way to begin a query with the stop flag clear. If the flag
+    // is still set now, every later query in this process is stopped before it starts — the
+    // history of this run has broken the process for all queries to come.
+    rec.flag_stuck_after_start_query = vp::peek_flag();
 
     SIM.with(|s| {
         let mut s = s.borrow_mut();
